@@ -446,22 +446,31 @@ def _big_payload(r):
 def generate_glue(r, n_msgs, big=0):
     """(message, segmentation) cases: every message under several segmentations"""
     cases = []
+    # every (compressed format, framing) pair carries a truncated stream in every run: whether a cut-off body is an error must not
+    # depend on how its end was found (a draw of the random part below hits a given pair a few times in a hundred messages)
+    forced = [(fmt, st) for fmt in ('gzip', 'zlib', 'raw') for st in ('close', 'ignore_length', 'length', 'chunked')]
     for mi in range(n_msgs + big):
         is_big = mi >= n_msgs
+        force = forced[mi] if mi < len(forced) and not is_big else None
         payload = _big_payload(r) if is_big else _payload(r)
-        for _ in range(20):
+        for _ in range(20 if not force else 400):
             body_kind, entity, tag, complete, _expect = _encode(r, payload)
-            if is_big or len(entity) <= 150:
+            if force:
+                if tag == force[0] and complete and 1 < len(entity) <= 150:
+                    break
+            elif is_big or len(entity) <= 150:
                 break
         if is_big and body_kind == 'KIdentity' and r.random() < 0.5:
             body_kind, entity, tag = 'KGzip', gzip.compress(payload, 1, mtime=0), 'gzip'
-        if complete and tag in ('gzip', 'zlib', 'raw') and len(entity) > 1 and r.random() < 0.25:
+        if complete and tag in ('gzip', 'zlib', 'raw') and len(entity) > 1 and (force or r.random() < 0.25):
             entity = entity[:r.choice([len(entity) - 1, r.randrange(1, len(entity))])]
             tag += '-truncated'
-        raw = r.random() < 0.12
+        raw = r.random() < 0.12 and not force
         ce_lines, kind = _ce_lines(r, body_kind, always_matching=raw)
         strat = r.choice(['close', 'length', 'length', 'chunked', 'chunked', 'ignore_length', 'length-surplus',
                           'length-short', 'length-cut', 'chunked-eof', 'length-zero'])
+        if force:
+            strat = force[1]
         if raw and strat.startswith('chunked'):
             strat = 'length'
         hdrs = list(ce_lines)
